@@ -1,5 +1,5 @@
 import BM.Gen.SrcPins
-/- WRITTEN by tools/repin.py from /repo at 05f55d5 (committed; re-checked against the regenerated
+/- WRITTEN by tools/repin.py from /repo at da0a256 (committed; re-checked against the regenerated
    BM/Gen/SrcPins.lean on every run).  The units of source the model and the proofs of C13 were
    written against: a change to one of them breaks `C13_source_pin`, and with it the obligations of
    this property only. -/
@@ -17,120 +17,28 @@ def C13_units : List (String × String) := [
 set_option maxRecDepth 100000 in
 theorem C13_source_pin : C13_units.all (fun u => BM.Gen.srcPins.contains u) = true := by decide
 
-/-- the declarations of the package: a new package-level variable, type, function or file is a
+/-- the package-level variables, constants and types of the package (functions are not state): a new
+    package-level variable — a cache, a pool, a shared default table, a sync.Once — or a changed one is a
     change to what a policy can share with other policies or remember between calls -/
-def C13_inventory : List String := [
-  "helpers.go/var/CellAlign,CellVerticalAlign,Direction,ImageAlign,Integer,ISO8601,ListType,SpaceS",
-  "helpers.go/func/*Policy.AllowStandardURLs",
-  "helpers.go/func/*Policy.AllowStandardAttributes",
-  "helpers.go/func/*Policy.AllowStyling",
-  "helpers.go/func/*Policy.AllowImages",
-  "helpers.go/func/*Policy.AllowDataURIImages",
-  "helpers.go/func/*Policy.AllowLists",
-  "helpers.go/func/*Policy.AllowTables",
-  "helpers.go/func/*Policy.AllowIFrames",
-  "policies.go/func/StrictPolicy",
-  "policies.go/func/StripTagsPolicy",
-  "policies.go/func/UGCPolicy",
-  "policy.go/type/Policy",
-  "policy.go/type/attrPolicy",
-  "policy.go/type/stylePolicy",
-  "policy.go/type/attrPolicyBuilder",
-  "policy.go/type/stylePolicyBuilder",
-  "policy.go/type/urlPolicy",
-  "policy.go/type/urlRewriter",
-  "policy.go/type/SandboxValue",
-  "policy.go/const/SandboxAllowDownloads,SandboxAllowDownloadsWithoutUserActivation,SandboxAllowFor",
-  "policy.go/func/*Policy.init",
-  "policy.go/func/NewPolicy",
-  "policy.go/func/*Policy.AllowAttrs",
-  "policy.go/func/*Policy.AllowDataAttributes",
-  "policy.go/func/*Policy.AllowComments",
-  "policy.go/func/*Policy.AllowNoAttrs",
-  "policy.go/func/*attrPolicyBuilder.AllowNoAttrs",
-  "policy.go/func/*attrPolicyBuilder.Matching",
-  "policy.go/func/*attrPolicyBuilder.OnElements",
-  "policy.go/func/*attrPolicyBuilder.OnElementsMatching",
-  "policy.go/func/*attrPolicyBuilder.Globally",
-  "policy.go/func/*Policy.AllowStyles",
-  "policy.go/func/*stylePolicyBuilder.Matching",
-  "policy.go/func/*stylePolicyBuilder.MatchingEnum",
-  "policy.go/func/*stylePolicyBuilder.MatchingHandler",
-  "policy.go/func/*stylePolicyBuilder.OnElements",
-  "policy.go/func/*stylePolicyBuilder.OnElementsMatching",
-  "policy.go/func/*stylePolicyBuilder.Globally",
-  "policy.go/func/*Policy.AllowElements",
-  "policy.go/func/*Policy.AllowElementsMatching",
-  "policy.go/func/*Policy.AllowURLSchemesMatching",
-  "policy.go/func/*Policy.RewriteSrc",
-  "policy.go/func/*Policy.RequireNoFollowOnLinks",
-  "policy.go/func/*Policy.RequireNoFollowOnFullyQualifiedLinks",
-  "policy.go/func/*Policy.RequireNoReferrerOnLinks",
-  "policy.go/func/*Policy.RequireNoReferrerOnFullyQualifiedLinks",
-  "policy.go/func/*Policy.RequireCrossOriginAnonymous",
-  "policy.go/func/*Policy.AddTargetBlankToFullyQualifiedLinks",
-  "policy.go/func/*Policy.RequireParseableURLs",
-  "policy.go/func/*Policy.AllowRelativeURLs",
-  "policy.go/func/*Policy.AllowURLSchemes",
-  "policy.go/func/*Policy.AllowURLSchemeWithCustomPolicy",
-  "policy.go/func/*Policy.RequireSandboxOnIFrame",
-  "policy.go/func/*Policy.AddSpaceWhenStrippingTag",
-  "policy.go/func/*Policy.SkipElementsContent",
-  "policy.go/func/*Policy.AllowElementsContent",
-  "policy.go/func/*Policy.AllowUnsafe",
-  "policy.go/func/*Policy.addDefaultElementsWithoutAttrs",
-  "policy.go/func/*Policy.addDefaultSkipElementContent",
-  "sanitize.go/var/dataAttribute,dataAttributeXMLPrefix,dataAttributeInvalidChars,cssUnicodeChar,da",
-  "sanitize.go/func/*Policy.Sanitize",
-  "sanitize.go/func/*Policy.SanitizeBytes",
-  "sanitize.go/func/*Policy.SanitizeReader",
-  "sanitize.go/func/*Policy.SanitizeReaderToWriter",
-  "sanitize.go/type/Query",
-  "sanitize.go/func/parseQuery",
-  "sanitize.go/func/encodeQueries",
-  "sanitize.go/func/sanitizedURL",
-  "sanitize.go/func/*Policy.sanitizeWithBuff",
-  "sanitize.go/const/keptTagMarker",
-  "sanitize.go/type/asStringWriter",
-  "sanitize.go/func/*asStringWriter.WriteString",
-  "sanitize.go/func/*Policy.sanitize/case:html.DoctypeToken",
-  "sanitize.go/func/*Policy.sanitize/case:html.CommentToken",
-  "sanitize.go/func/*Policy.sanitize/case:html.StartTagToken",
-  "sanitize.go/func/*Policy.sanitize/case:html.EndTagToken",
-  "sanitize.go/func/*Policy.sanitize/case:html.SelfClosingTagToken",
-  "sanitize.go/func/*Policy.sanitize/case:html.TextToken",
-  "sanitize.go/func/*Policy.sanitize/case:default",
-  "sanitize.go/func/*Policy.sanitize/around-switch",
-  "sanitize.go/func/*Policy.sanitizeAttrs/signature",
-  "sanitize.go/func/*Policy.sanitizeAttrs/if:len(attrs) == 0",
-  "sanitize.go/func/*Policy.sanitizeAttrs/assign:hasStylePolicies",
-  "sanitize.go/func/*Policy.sanitizeAttrs/assign:sps",
-  "sanitize.go/func/*Policy.sanitizeAttrs/if:len(p.globalStyles) > 0 || (elementHasStylePolicies && len(s",
-  "sanitize.go/func/*Policy.sanitizeAttrs/if:!hasStylePolicies",
-  "sanitize.go/func/*Policy.sanitizeAttrs/assign:cleanAttrs",
-  "sanitize.go/func/*Policy.sanitizeAttrs/label:attrsLoop",
-  "sanitize.go/func/*Policy.sanitizeAttrs/if:len(cleanAttrs) == 0",
-  "sanitize.go/func/*Policy.sanitizeAttrs/if:linkable(elementName)/if:p.requireParseableURLs",
-  "sanitize.go/func/*Policy.sanitizeAttrs/if:linkable(elementName)/if:(p.requireNoFollow || p.requireNoFollowFullyQualifiedLinks |",
-  "sanitize.go/func/*Policy.sanitizeAttrs/if:p.requireCrossOriginAnonymous && len(cleanAttrs) > 0",
-  "sanitize.go/func/*Policy.sanitizeAttrs/if:p.requireSandboxOnIFrame != nil && elementName == \"iframe\"",
-  "sanitize.go/func/*Policy.sanitizeAttrs/return",
-  "sanitize.go/func/*Policy.sanitizeStyles",
-  "sanitize.go/func/*Policy.allowNoAttrs",
-  "sanitize.go/func/*Policy.validURL",
-  "sanitize.go/func/linkable",
-  "sanitize.go/func/hasRelToken",
-  "sanitize.go/func/asciiEqualFold",
-  "sanitize.go/func/isVoidElement",
-  "sanitize.go/func/stringInSlice",
-  "sanitize.go/func/isDataAttribute",
-  "sanitize.go/func/removeUnicode",
-  "sanitize.go/func/*Policy.matchRegex",
-  "sanitize.go/func/normaliseElementName",
-  "sanitize.go/type/stringWriterWriter"
+def C13_inventory : List (String × String) := [
+  ("helpers.go/var/CellAlign,CellVerticalAlign,Direction,ImageAlign,Integer,ISO8601,ListType,SpaceS", "6b749d40d9f47dae"),
+  ("policy.go/type/Policy", "3f228ec260944688"),
+  ("policy.go/type/attrPolicy", "b2ceb2423494d3be"),
+  ("policy.go/type/stylePolicy", "7b015e5fb74f4933"),
+  ("policy.go/type/attrPolicyBuilder", "4651cb16305a7ca8"),
+  ("policy.go/type/stylePolicyBuilder", "e0d0db2057985649"),
+  ("policy.go/type/urlPolicy", "285a2e431b67c8f2"),
+  ("policy.go/type/urlRewriter", "d62ac156c80aa631"),
+  ("policy.go/type/SandboxValue", "a9db4ddd8879c526"),
+  ("policy.go/const/SandboxAllowDownloads,SandboxAllowDownloadsWithoutUserActivation,SandboxAllowFor", "5445d2e2c82af163"),
+  ("sanitize.go/var/dataAttribute,dataAttributeXMLPrefix,dataAttributeInvalidChars,cssUnicodeChar,da", "2545e9727a056a18"),
+  ("sanitize.go/type/Query", "f7f6082aee02d424"),
+  ("sanitize.go/const/keptTagMarker", "8bc60fb6ea752b4e"),
+  ("sanitize.go/type/asStringWriter", "8939da689d9e77eb"),
+  ("sanitize.go/type/stringWriterWriter", "bfeb5d1524674eff")
 ]
 
 set_option maxRecDepth 100000 in
-theorem C13_inventory_pin : BM.Gen.srcPins.map (·.1) = C13_inventory := by decide
+theorem C13_inventory_pin : BM.Gen.srcState = C13_inventory := by decide
 
 end BM.Props
